@@ -128,6 +128,96 @@ for n in (0, 1, 2, 3):
         con.cases.append(c)
 
 
+# ---- break / continue summaries: a compound statement contains a break (continue) iff one of its parts does -----------------
+# The for-loop and while-loop translations decide from these summaries whether a loop body leaves the loop.  A `break` hidden
+# inside a match statement (CondSelect) that the summary does not report is translated as an ordinary statement: the open
+# paths are parked for a loop exit that never comes and everything after the loop is dropped on that path.
+FLAGS = {"plain": (False, False), "break": (True, False), "continue": (False, True)}
+
+
+def flagged(tag, flag):
+    brk, cont = FLAGS[flag]
+    return SObj(_S, f_ra=False, f_paths=[], f_tag=tag, f_brk=brk, f_cont=cont)
+
+
+def flags_spec(parts_of):
+    def spec(sx, self, *args):
+        real = sx.real_args
+        parts = [p for p in parts_of(real) if p is not None]
+
+        def holds(res):
+            f = real[0].fields
+            return f["_contains_break"] == any(p.fields["f_brk"] for p in parts) and f["_contains_continue"] == any(p.fields["f_cont"] for p in parts)
+
+        return C.Pred(holds, "contains_break / contains_continue iff one of the parts does")
+
+    return spec
+
+
+con_if = contract(MOD + "If.__init__", PROPS)
+for fb, fo in itertools.product(FLAGS, repeat=2):
+    c = Case(f"flags:body-{fb},orelse-{fo}", [Built([], lambda env: SObj(OUT.If), lambda a: "None", lambda a: None), Built([], lambda env: "TEST", lambda a: "None", lambda a: None),
+                                              Built([], (lambda k: lambda env: flagged("body", k))(fb), lambda a: "None", lambda a: None), Built([], (lambda k: lambda env: flagged("orelse", k))(fo), lambda a: "None", lambda a: None)],
+             flags_spec(lambda real: [real[2], real[3]]))
+    c.native = False
+    c.models = INIT_MODEL
+    con_if.cases.append(c)
+
+con_cs = contract(MOD + "CondSelect.__init__", PROPS)
+for f0, f1 in itertools.product(FLAGS, repeat=2):
+    for fd in (None,) + tuple(FLAGS):
+        c = Case(f"flags:branches-[{f0},{f1}],default-{fd}", [Built([], lambda env: SObj(OUT.CondSelect), lambda a: "None", lambda a: None),
+                                                               Built([], (lambda a_, b_: lambda env: [("cond0", flagged("b0", a_)), ("cond1", flagged("b1", b_))])(f0, f1), lambda a: "None", lambda a: None),
+                                                               Built([], (lambda k: lambda env: flagged("default", k) if k is not None else None)(fd), lambda a: "None", lambda a: None)],
+                 flags_spec(lambda real: [b for _, b in real[1]] + [real[2]]))
+        c.native = False
+        c.models = INIT_MODEL
+        c.custom_replay = "contracts.c03_out.replay_break_in_match"
+        con_cs.cases.append(c)
+
+con_cb = contract(MOD + "CodeBlock.__init__", PROPS)
+for f0, f1 in itertools.product(FLAGS, repeat=2):
+    c = Case(f"flags:statements-[{f0},{f1}]", [Built([], lambda env: SObj(OUT.CodeBlock), lambda a: "None", lambda a: None),
+                                                Built([], (lambda a_, b_: lambda env: [flagged("s0", a_), flagged("s1", b_)])(f0, f1), lambda a: "None", lambda a: None)],
+             flags_spec(lambda real: list(real[1])))
+    c.native = False
+    c.models = INIT_MODEL
+    con_cb.cases.append(c)
+
+
+_BREAK_IN_MATCH = '''
+from cohdl import Entity, Port, Bit, Unsigned, std
+class E(Entity):
+    clk = Port.input(Bit)
+    sel = Port.input(Unsigned[2])
+    o = Port.output(Unsigned[4])
+    p = Port.output(Unsigned[4])
+    q = Port.output(Unsigned[4])
+    def architecture(self):
+        @std.sequential(std.Clock(self.clk))
+        def proc():
+            for i in range(2):
+                match self.sel:
+                    case 0:
+                        self.o <<= i
+                        break
+                    case _:
+                        self.p <<= i
+            self.q <<= 1          # executes on every path
+t = std.VhdlCompiler.to_string(E)
+arch = t[t.index("proc:"):]
+first = arch[arch.index("if temp then"):arch.index("else")]
+print("TAIL-DROPPED" if "buffer_q" not in first else "TAIL-KEPT")
+'''
+
+
+def replay_break_in_match(payload):
+    from contracts.c06_extra import _run_design
+
+    rc, out = _run_design(_BREAK_IN_MATCH)
+    return {"reproduced": rc == 0 and "TAIL-DROPPED" in out, "detail": out[-300:]}
+
+
 _RETURN_CHAIN = '''
 from __future__ import annotations
 import cohdl
